@@ -3,9 +3,10 @@ import os, itertools
 from fractions import Fraction as Fr
 import vlib
 
-MODULE = 'GudhiVerif.Properties.C20'
+MODULE = 'GudhiVerif.Properties.C20b'
 THEOREMS = ['PermProto.shift_apply', 'PermProto.shift_ne', 'PermProto.verts_distinct', 'PermProto.verts_length', 'PermProto.verts_getD', 'PermProto.face_spec', 'PermProto.shift_perm',
-            'C20.mem_choose', 'C20.choose_length', 'C20.faces_are_vertex_subsets', 'C20.vertsL_length', 'C20.cofaces_sound', 'C20.orderedPartitions_shape']
+            'C20.mem_choose', 'C20.choose_length', 'C20.faces_are_vertex_subsets', 'C20.vertsL_length', 'C20.cofaces_sound', 'C20.orderedPartitions_shape',
+            'C20b.locate_v', 'C20b.locate_parts', 'C20b.levels_spec', 'C20b.index_in_unique_part', 'C20b.own_level_mem', 'C20b.parts_nonempty', 'C20b.last_part_contains_d']
 PARTIAL = ['C20_coface_partial: the cofaces are specified by exhaustive search over all representations near the simplex (sound by construction: each listed simplex has the requested dimension and contains the vertices); '
            'that the search space contains every coface (base vertex = vertex of the simplex minus a 0/1 vector) is argued in DESIGN.md, and the C++ iterator chain (ordered set partitions x integer combinations) is tied by correspondence only',
            'C20_locate_partial: exact location is an executable specification (floor, fractional parts grouped), compared with the code and with an independent barycentric-coordinate oracle; Eigen\'s QR solve for transformed triangulations is trusted up to the documented tolerance']
